@@ -21,6 +21,11 @@ Oracle (per executed use, `Script.goto(line, col)` on it):
      exactly the binding whose tag was observed.
 An empty answer for an executed use whose value came from a binding in the file fails clause 2
 ("returns definitions ... belonging to the scope").
+
+Failure classes (`site`): `scope:<where the wrong answer lies relative to the use>/<how symtable
+classifies x in the use's scope>@goto`, `no-definition/<symtable class>@goto`,
+`not-the-observed-assignment@goto` (clause 4), `other-spelling@goto`, and
+`<Exception>@<innermost jedi frame>` for exceptions escaping `Script`/`goto`.
 """
 import os
 
